@@ -250,8 +250,8 @@ Section InterpInv.
     apply inv_try; [apply INV_weaken; apply inv_try; [exact Hb|apply inv_custom_end]|intros r].
     unfold custom_handler.
     assert (H : INVb false (
-                 t0 <- get_ts ;;
                  c <- cleanup LF crun ;;
+                 t0 <- get_ts ;;
                  match c, r with
                  | Some e, Err (XInvalid m) => _ <- (if internal_msg m then mark_dirty else ret tt) ;; throw e
                  | Some e, _ => throw e
@@ -259,8 +259,8 @@ Section InterpInv.
                  | None, Err (XInvalid m) => match failed t0 with Some _ => throw (XInvalid m) | None => ret None end
                  | None, Err e => throw e
                  end)).
-    { apply inv_bind; [weak|intros t0].
-      apply inv_bind; [apply inv_cleanup|intros c].
+    { apply inv_bind; [apply inv_cleanup|intros c].
+      apply inv_bind; [weak|intros t0].
       destruct c as [e|]; destruct r as [v|e']; try weak.
       - destruct e'; try weak. apply inv_bind; [destruct (internal_msg m); weak|intros; weak].
       - destruct e'; try weak. destruct (failed t0); weak. }
